@@ -40,6 +40,18 @@ def h_rest_auth_frontend_middleware_token_auth_go : Nat := 0x9bbe53b119152e2f
 /-- hash of the normalised skeleton of * (internal/frontend/middleware/global.go) -/
 def h_rest_auth_frontend_middleware_global_go : Nat := 0xfc8895e33cc08d48
 
+/-- hash of the normalised skeleton of * (internal/frontend/frontend.go) -/
+def h_rest_auth_frontend_frontend_go : Nat := 0x2e0a6aa4be0681b2
+
+/-- hash of the normalised skeleton of * (internal/frontend/server/server.go) -/
+def h_rest_auth_frontend_server_server_go : Nat := 0x60a027172e5ae808
+
+/-- hash of the normalised skeleton of * (internal/config/config.go) -/
+def h_rest_auth_config_config_go : Nat := 0xf5b12a3b078c41ff
+
+/-- hash of the normalised skeleton of * (internal/frontend/gen/restapi/configure_blackdagger.go) -/
+def h_rest_auth_frontend_gen_restapi_configure_blackdagger_go : Nat := 0x3b291ce73b57afae
+
 def skipBasicCond : String := "return authToken != nil && len(authHeader) >= 2 && authHeader[0] == \"Bearer\""
 
 def wrapOrder : List (List String) := [
